@@ -40,12 +40,13 @@ type frameItem struct {
 }
 
 type State struct {
-	guard  string
-	mi, mr string
-	top    string
-	ghost  map[string]string
-	kept   map[string]bool
-	dead   bool
+	guard   string
+	mi, mr  string
+	top     string
+	ghost   map[string]string
+	kept    map[string]bool
+	visited map[string]string // per map-range iteration: (Array Int Bool) of keys already delivered
+	dead    bool
 }
 
 func (s *State) clone() *State {
@@ -57,6 +58,10 @@ func (s *State) clone() *State {
 	n.kept = map[string]bool{}
 	for k, v := range s.kept {
 		n.kept[k] = v
+	}
+	n.visited = map[string]string{}
+	for k, v := range s.visited {
+		n.visited[k] = v
 	}
 	return &n
 }
@@ -124,6 +129,8 @@ type VC struct {
 	seenRef    map[string]bool
 	seenRefs   []string
 	pure       int // >0 while evaluating a quantifier body
+	rangeIDs   map[*ssa.Range]string
+	closureCtx *ClosureV
 	symDeclared map[string]bool
 	assertSyms  [][]string
 	constGlobalVals map[string]Val
@@ -498,6 +505,19 @@ func (vc *VC) elemIdx(off, idx string, w int) string {
 	return fmt.Sprintf("(%s %s %s)", name, off, idx)
 }
 
+// mapSlot: leaf index of the presence flag of key in a map object whose entries are w leaves wide.
+// A declared function with a triggered axiom, so that quantified facts about map keys are
+// instantiated on the very terms the code and the contracts produce.
+func (vc *VC) mapSlot(key string, w int) string {
+	name := fmt.Sprintf("mapslot_%d", w)
+	if !vc.declared[name] {
+		vc.declared[name] = true
+		vc.decls = append(vc.decls, fmt.Sprintf("(declare-fun %s (Int) Int)", name))
+		vc.decls = append(vc.decls, fmt.Sprintf("(assert (forall ((k Int)) (! (= (%s k) (* k %d)) :pattern ((%s k)))))", name, w, name))
+	}
+	return fmt.Sprintf("(%s %s)", name, key)
+}
+
 // noteRef remembers object references seen so far (ground instances of havoc axioms are
 // generated for them).
 func (vc *VC) noteRef(r string) {
@@ -715,7 +735,7 @@ func (vc *VC) mergeStates(sts []*State) *State {
 		}
 	}
 	if len(live) == 0 {
-		return &State{guard: "false", dead: true, ghost: map[string]string{}, kept: map[string]bool{}, mi: "MI0", mr: "MR0", top: "alloc0"}
+		return &State{guard: "false", dead: true, ghost: map[string]string{}, kept: map[string]bool{}, visited: map[string]string{}, mi: "MI0", mr: "MR0", top: "alloc0"}
 	}
 	if len(live) == 1 {
 		return live[0].clone()
@@ -767,6 +787,21 @@ func (vc *VC) mergeStates(sts []*State) *State {
 			}
 			return "0"
 		}, "Int", "gh_"+k)
+	}
+	vkeys := map[string]bool{}
+	for _, s := range live {
+		for k := range s.visited {
+			vkeys[k] = true
+		}
+	}
+	for k := range vkeys {
+		kk := k
+		out.visited[k] = pick(func(s *State) string {
+			if v, ok := s.visited[kk]; ok {
+				return v
+			}
+			return "((as const (Array Int Bool)) false)"
+		}, "(Array Int Bool)", "vis")
 	}
 	return out
 }
